@@ -80,6 +80,22 @@ func (w *syncWorld) exec(op string) string {
 		w.expect(w.val + n)
 
 		return strconv.Itoa(nv)
+	case f[0] == "c" && (f[1] == "inc" || f[1] == "dec"):
+		d, nv := 1, 0
+		if f[1] == "inc" {
+			nv = w.c.Increase()
+		} else {
+			d, nv = -1, w.c.Decrease()
+		}
+		w.check(f[1]+" returns the new value", nv, w.val+d)
+		w.expect(w.val + d)
+
+		return strconv.Itoa(nv)
+	case f[0] == "q" && f[1] == "signal":
+		w.q.SignalShutdown() // wakes waiters on elementAdded; nothing observable changes sequentially
+		w.check("Size after SignalShutdown", w.q.Size(), len(w.fifo))
+
+		return "ok"
 	case f[0] == "c" && f[1] == "get":
 		w.check("Get", w.c.Get(), w.val)
 
@@ -176,6 +192,8 @@ func genSyncOps(rng *hx.Rng, n int) []string {
 			ops = append(ops, fmt.Sprintf("c set %d", rng.Range(-3, 6)))
 		case x < 34:
 			ops = append(ops, fmt.Sprintf("c upd %d", hx.Pick(rng, []int{1, 1, 1, -1, -1, -1, 0, 2, -2, 5})))
+		case x < 36:
+			ops = append(ops, hx.Pick(rng, []string{"c inc -", "c dec -", "q signal -"}))
 		case x < 38:
 			ops = append(ops, "c get -")
 		case x < 46:
